@@ -311,7 +311,7 @@ def drop_history(rng):
     lines = ["cfg %s %s" % (",".join(["0"] * nsrv), ",".join(l1))]
     keys = [rand_name(rng) for _ in range(2)]
     now = 1000
-    for i in range(rng.randrange(3, 8)):
+    for i in range(rng.randrange(2, 5)):
         k = rng.choice(keys)
         a = rng.randrange(ncl)
         lines.append("store %d %d %s %s %s 9000" % (a, now, hx(k), hx(b"v%d" % i), trig_word([b"t"] if rng.random() < 0.5 else [])))
@@ -916,7 +916,7 @@ def main():
     run_stream("churn", hs, True)
     hs = [restore_history(rng) for i in range(300 if thorough else 30)]
     run_stream("restore", hs, True)
-    hs = [drop_history(rng) for i in range(150 if thorough else 15)]
+    hs = [drop_history(rng) for i in range(60 if thorough else 6)]
     run_stream("drop", hs, True)
     hs = [trigset_history(rng) for i in range(300 if thorough else 25)]
     run_stream("trigsets", hs, True)
